@@ -5,14 +5,15 @@ export GOFLAGS=-mod=mod GOPROXY=off GOSUMDB=off GOTOOLCHAIN=local
 D=${DEV_DIR:-/var/tmp/goatdev}
 SRC=${DEV_SRC:-/repo}   # DEV_SRC=<worktree> builds the dev copy from a scratch worktree (e.g. one with a seeded change)
 OUT=${DEV_OUT:-/var/tmp/goatsim}
+HS=${HARNESS_SRC:-/verif}   # HARNESS_SRC=<dir with harness/ and simrt/> builds a private copy of the machinery
 if [ "${1:-}" = "--repo" ]; then
   shift
   (cd /verif/tools/simrewrite && go build -o /var/tmp/simrewrite .) || exit 2
   rm -rf $D; mkdir -p $D/verifsim
   (cd $SRC && find . -path ./.git -prune -o -type f -print0 | grep -zv '^\./\.git/' | xargs -0 cp --parents -t $D)
-  cp -r /verif/simrt $D/verifsim/simrt
+  cp -r $HS/simrt $D/verifsim/simrt
   (cd $D && /var/tmp/simrewrite -dir .) || exit 2
 fi
-rsync -a --delete /verif/simrt/ $D/verifsim/simrt/
-rsync -a --delete /verif/harness/ $D/verifsim/harness/
+rsync -a --delete $HS/simrt/ $D/verifsim/simrt/
+rsync -a --delete $HS/harness/ $D/verifsim/harness/
 cd $D && go build -o $OUT ./verifsim/harness "$@"
